@@ -111,11 +111,13 @@ def variables(s, acc=None):
 
 
 def rename(s, m):
-    """m: (T, k) -> k'"""
+    """m: (T, k) -> k'   (also normalises the 2-child product (-1, x) to its one spelling, neg / pneg)"""
     if s[0] == 'v':
         return ['v', s[1], m.get((s[1], s[2]), s[2])]
     if is_leaf(s):
         return list(s)
+    if s[0] in ('mul', 'pmul') and len(s) == 3 and s[1] == ['c', -1]:
+        return ['neg' if s[0] == 'mul' else 'pneg', rename(s[2], m)]
     return [s[0]] + [rename(c, m) for c in s[1:]]
 
 
